@@ -4,6 +4,7 @@ from reg_lib import *
 PROPS = "Props/C10"
 DRV = ["main.go", "ops_tl1.go", "ops_reg.go", "ops_regbytes.go"]
 F_SPLIT_SIG = "C10:gen-does-not-compile:split-internal+byte-versions"
+F_TL2_SIG = "C10:bytes-dict-tl2-read-loses-entries"     # known_findings uses sig_regex "<this>:.*"
 
 
 class DictGen(randschema.Gen):
@@ -24,6 +25,16 @@ class DictGen(randschema.Gen):
         if r.random() < 0.2:
             return "string"
         return super().texpr(scope, depth, guarded)
+
+
+class AsciiGen(ValueGen):
+    """mostly printable strings, so that the JSON form can be read back (non-UTF-8 strings in JSON are C05's subject)"""
+
+    def string(self):
+        if self.rng.random() < 0.85:
+            l = self.rng.choice([0, 1, 1, 2, 3, 5, 8, 13, 40])
+            return bytes(self.rng.choice(b"abcdefXYZ019_-") for _ in range(l))
+        return super().string()
 
 
 class UnsortedGen(ValueGen):
@@ -103,7 +114,7 @@ def run(ctx):
             bytes_items[u.name] = names
         tops = [t for t in toplevel_objects(ins) if t[1] in names]
         san = "1" if u.san else "0"
-        sg, ug = ValueGen(ins, rng), UnsortedGen(ins, rng)
+        sg, ug = AsciiGen(ins, rng), UnsortedGen(ins, rng)
         enc_lines, kinds = [], []
         for tid, name, x in tops:
             for k in range(nvals):
@@ -179,6 +190,45 @@ def run(ctx):
             idx = [i for i, k in enumerate(lk) if k == kind]
             fam.compare(u, [lines[i] for i in idx], [nm[i] for i in idx], [ng[i] for i in idx], "brw-" + kind)
         fam.add(schemas=1, bytes_items=len(tops), inputs_sorted_distinct=nsorted, inputs_unsorted_or_duplicates=nunsorted)
+        # ---- reused objects (model-free): content B read in every format by every variant into a fresh object, into an
+        # object that held A before, and into one that held A and was Reset(): all must hold B
+        by_name = {}
+        for l, k in zip(lines, lk):
+            if k == "sorted":
+                f = l.split(" ")
+                by_name.setdefault((f[2], f[3]), []).append(f[4])
+        rl = []
+        for (tid, name), hs in by_name.items():
+            hs = sorted(set(hs), key=lambda h: -len(h))     # long content first: stale data of A shows in the shorter B
+            for i in range(len(hs) - 1):
+                rl.append(f"breuse {san} {tid} {name} {hs[i]} {hs[i + 1]}")
+                if rng.random() < 0.5:
+                    rl.append(f"breuse {san} {tid} {name} {hs[i + 1]} {hs[i]}")
+        ro = run_lines_resilient(u.gen.exe, [], rl, timeout=600)
+        fam.add(evaluations=len(rl), reuse_ops=len(rl))
+        fam.kind("reuse-fresh-vs-reused-vs-reset", len(rl))
+        for l, o in zip(rl, ro):
+            name = l.split(" ")[3]
+            if not o.startswith("ok "):
+                if o.startswith("crash") and not Family.not_ours("", o):
+                    fam.oracle_fail(u, f"C10:reuse-crash:{u.name}:{name}", f"process died: {o[:120]}", {"op": l, "go": o})
+                continue
+            with fam.lock:
+                fam.distinct.add(hash((u.name, l)))
+            codes = dict(p.split("=") for p in o[3:].split(" "))
+            if codes.get("s:js") in ("readerr", "readerr2") and codes.get("b:js") == codes.get("s:js"):
+                fam.add(json_not_rereadable_by_either_variant_left_to_C05=1)
+                codes.pop("s:js"), codes.pop("b:js")
+            for vf, c in codes.items():
+                if c in ("ok", "-"):
+                    continue
+                data = {"op": l, "go": o, "unit": u.name, "options": u.options}
+                if vf == "b:t2" and c == "rt":
+                    fam.oracle_fail(u, f"{F_TL2_SIG}:{name}", f"{name}: the bytes variant does not read back its own TL2 encoding (TL1 -> bytes object -> WriteTL2 -> fresh bytes object ReadTL2 -> different TL1/JSON/TL2)", data)
+                else:
+                    what = {"rt": "a fresh object does not reproduce the content", "reuse": "an object that held other content before reads differently from a fresh object",
+                            "reset": "an object that was Reset() reads differently from a fresh object"}.get(c, c)
+                    fam.oracle_fail(u, f"C10:reuse:{u.name}:{name}:{vf}", f"{name} {vf}: {what}", data)
 
     fam.run_units(work)
     fam.report(
